@@ -30,6 +30,8 @@ def generate(ctx):
     for i in range(260 if th else 12):
         kind = ["serial", "biclique", "recurrent"][i % 3]
         trainer = rng.choice(TRAINERS)
+        if i % 6 == 4:
+            trainer = "KernelSTDP"      # every shard has kernel trainers with tensor-valued (annealed) kernel arguments
         delay = rng.choice([None, 2]) if trainer not in tr.NEEDS_DELAY else 2
         target = ["fresh", "prerun", "clone"][(i // 3) % 3]
         yield {"kind": kind, "dt": rng.choice([1.0, 0.5, 1.3, 0.25]), "B": rng.randint(1, 2), "seed": rng.randrange(1 << 30),
@@ -43,7 +45,11 @@ def generate(ctx):
                "reducer": rng.choice(REDUCERS), "reducer_duration": rng.choice([0.0, 3.0, 2.5, 1.0]), "classifier": target == "clone" or rng.random() < 0.5, "vmon": ["ca", "ema", None][(i // 9) % 3], "update_every": [1, 3][(i // 2) % 2],
                "target": target, "reducer_clear_at": rng.choice([None, 2, 4]),
                # histories that started single-slot and were grown by a setter afterwards (connection delay range, reducer duration)
-               "grown": rng.random() < 0.4}
+               "grown": rng.random() < 0.4,
+               # kernel trainers: tensor-valued kernel arguments (documented: registered as buffers of the cell's state), annealed
+               # in place during the run - trainer state a checkpoint has to carry
+               "tensor_kwargs": rng.choice(([] if i % 6 == 4 else [[]]) + [["post_learning_rate"], ["post_learning_rate", "pre_learning_rate"]]),
+               "anneal_at": sorted(rng.sample(range(1, 9), 2))}
 
 
 def _mk_reducer(desc, dt, dur):
@@ -73,7 +79,8 @@ class System:
         if desc["trainer"] != "none":
             from rv.monitors import c08
             a, b = c08.SIGNS[desc["signs"]]
-            hyper = {"lr_a": a * 0.05, "lr_b": b * 0.05, "trace_mode": desc["trace_mode"], "delayed": desc["delayed"]}
+            hyper = {"lr_a": a * 0.05, "lr_b": b * 0.05, "trace_mode": desc["trace_mode"], "delayed": desc["delayed"],
+                     "tensor_kwargs": desc.get("tensor_kwargs", [])}
             for c in self.parts.conns.values():
                 c.updater = c.defaultupdater()
             self.trainer = tr.build_trainer(desc["trainer"], hyper, torch.mean)
@@ -106,6 +113,11 @@ class System:
                 self.trainer(0.5 if t % 2 == 0 else -0.25)
             else:
                 self.trainer()
+            if t in self.d.get("anneal_at", ()) and "Kernel" in self.d["trainer"] and self.d.get("tensor_kwargs"):
+                for bname, buf in self.trainer.named_buffers():
+                    if "tensor_kwargs" in bname and bname.endswith("learning_rate"):
+                        buf.mul_(0.6)
+                        self.annealed = getattr(self, "annealed", 0) + 1
             # updates accumulate over `update_every` steps before they are applied: a checkpoint in between carries pending parts
             if (t + 1) % self.d.get("update_every", 1) == 0:
                 self.layer.update()
@@ -241,6 +253,8 @@ def run_case(ctx, desc):
                 return ctx.violation(f"restore.final_state_differs.{group}.{_leafclass(name)}",
                                      f"checkpoint at {k}: final '{name}' differs from the uninterrupted run", rdesc)
         ctx.count("final_states_compared")
+        if getattr(src, "annealed", 0):
+            ctx.count("checkpoints_after_in_place_changes_of_trainer_buffers")
     # ---- a target in a different phase of the update schedule (an "arbitrary prior state"): the checkpoint holds two pending
     # update parts per accumulator, the target one.  The uninterrupted run applies BOTH checkpointed parts at the next update.
     if desc.get("update_every", 1) > 1 and desc["trainer"] != "none" and T > 4:
